@@ -33,3 +33,38 @@ proof! {
         std::mem::forget(ctx);
     }
 }
+
+
+/// Values produced by decoding are built from the input but must not point into it: a safe client
+/// may free or reuse the input buffer while still holding the value.
+fn decode_then_drop_input<T: desert_core::BinaryDeserializer>(payload: [u8; 2]) -> Option<T> {
+    let input: Vec<u8> = vec![0x02, payload[0], payload[1]]; // raw length 2, two bytes
+    let decoded = match desert_core::deserialize::<T>(&input) {
+        Ok(v) => Some(v),
+        Err(e) => { std::mem::forget(e); None }
+    };
+    drop(input); // the input buffer is gone from here on
+    decoded
+}
+
+proof! {
+    //@ props=C19 tier=quick bounds=Bytes,Vec<u8>:decoded-from-a-heap-buffer-that-is-freed-before-the-value-is-read;payload-symbolic cap=900
+    fn c19_decoded_values_own_their_data() unwind(6) {
+        let payload: [u8; 2] = sym::bytes();
+        match decode_then_drop_input::<bytes::Bytes>(payload) {
+            Some(b) => {
+                assert!(b.len() == 2 && b[0] == payload[0] && b[1] == payload[1], "decoded Bytes changed after the input was freed");
+                std::mem::forget(b);
+            }
+            None => assert!(false),
+        }
+        match decode_then_drop_input::<Vec<u8>>(payload) {
+            Some(b) => {
+                assert!(b.len() == 2 && b[0] == payload[0] && b[1] == payload[1]);
+                cover!(true);
+                std::mem::forget(b);
+            }
+            None => assert!(false),
+        }
+    }
+}
